@@ -128,6 +128,10 @@ def events_for(p, rng, quick):
             # an attached view (how 2) -- query() is a function of the current registers
             lower = regs.copy()
             lower[rng.sample(range(len(lower)), len(lower) // 2)] = 0
+            if how == 2 and (j // 3) % 2 == 1:
+                # ... or for a state with NO zero register (the block an attached handle is pointed at next may be
+                # sparser: attach_existing_shm is public) -- nothing remembered from that answer may be used
+                lower = np.maximum(regs, 1)
             sk.registers[:] = lower
             sk.query()
             if how == 1:
